@@ -253,6 +253,35 @@ func ownExprs(s ast.Stmt) (exprs []ast.Expr, lhs []ast.Expr) {
 	return nil, nil
 }
 
+// hasField: the identifier's (struct or pointer-to-struct) type has a field of that name. Field names repeat across
+// structs (a helper struct may have an `idx` of its own without any mutex); without type information nothing is emitted.
+func hasField(id *ast.Ident, field string) bool {
+	if curInfo == nil {
+		return false
+	}
+	obj := curInfo.Uses[id]
+	if obj == nil {
+		obj = curInfo.Defs[id]
+	}
+	if obj == nil || obj.Type() == nil {
+		return false
+	}
+	t := obj.Type()
+	if p, ok := t.Underlying().(*types.Pointer); ok {
+		t = p.Elem()
+	}
+	st, ok := t.Underlying().(*types.Struct)
+	if !ok {
+		return false
+	}
+	for i := 0; i < st.NumFields(); i++ {
+		if st.Field(i).Name() == field {
+			return true
+		}
+	}
+	return false
+}
+
 // touches lists the (receiver identifier, mutex field, write) triples a statement needs.
 func touches(s ast.Stmt) (out [][3]string) {
 	if !locksetOn || len(guardedBy) == 0 {
@@ -290,7 +319,7 @@ func touches(s ast.Stmt) (out [][3]string) {
 				return true
 			}
 			mu, ok := guardedBy[se.Sel.Name]
-			if !ok {
+			if !ok || !hasField(id, mu) {
 				return true
 			}
 			w := "r"
